@@ -3,7 +3,7 @@
    fixes/C23-*.patch; Spec.spec_step is Substrate's AuthoritySet (authorities.rs, fork-tree).
    `prefix` = the pinned code, only used by the ..._prefix_refuted witnesses. *)
 From Coq Require Import NArith List Bool Arith.
-From C23 Require Import Model Spec Enum Proofs Bounded.
+From C23 Require Import Model Spec Enum Proofs Bounded Local.
 Import ListNotations.
 Local Open Scope N_scope.
 
@@ -47,6 +47,70 @@ Theorem C23_spec_set_id_increments_by_one : forall t sched forced q e q',
   spec_step t sched forced q e = Some q' -> s_setid q' = s_setid q \/ s_setid q' = s_setid q + 1.
 Proof. exact spec_step_setid. Qed.
 Print Assumptions C23_spec_set_id_increments_by_one.
+
+(* --- one-step semantics of the repaired Go model, every state and block tree.
+   rel t fin a d: a is d, or a is an ancestor of d and both are still known to the block state
+   (not on a fork abandoned by the last finalisation fin). --- *)
+
+(* A forced change takes effect when a block whose number is its effective number is imported on
+   its fork (first such change in the ordered list), unless a pending scheduled change it depends
+   on is still unapplied (error): both pending containers are reset, the set id grows by one, the
+   new authorities are stored under the new id and the old set ends at the best finalized block. *)
+Theorem C23_forced_takes_effect : forall t s b,
+  apply_forced fixed t s b =
+  match find (forced_applicable t (g_fin s) b) (g_forced s) with
+  | None => Some s
+  | Some fc =>
+    match find (depends_on t (g_fin s) fc) (g_roots s) with
+    | Some _ => None
+    | None => Some (mkgst [] [] (g_setid s + 1) (aput (g_auths s) (g_setid s + 1) (pc_auth fc))
+                          (aput (g_changes s) (g_setid s + 1) (pc_bestfin fc)) (g_fin s))
+    end
+  end.
+Proof. exact apply_forced_fixed. Qed.
+Print Assumptions C23_forced_takes_effect.
+
+(* At most one forced change is pending per fork: an accepted announcement is on a different
+   block than, and not a descendant of, every pending one; one on a fork that already has a
+   pending forced change is refused. *)
+Theorem C23_one_forced_per_fork : forall t s c,
+  (forall s', add_forced fixed t s c = Some s' ->
+     (forall x, In x (g_forced s) -> pc_blk x <> pc_blk c /\ rel t (g_fin s) (pc_blk x) (pc_blk c) = false) /\
+     (forall x, In x (g_forced s') <-> x = c \/ In x (g_forced s))) /\
+  (forall x, In x (g_forced s) -> rel t (g_fin s) (pc_blk x) (pc_blk c) = true -> add_forced fixed t s c = None).
+Proof.
+  intros t s c. split.
+  - intros s'. apply add_forced_one_per_fork.
+  - intros x. apply add_forced_refused.
+Qed.
+Print Assumptions C23_one_forced_per_fork.
+
+(* A scheduled change takes effect when a block at or beyond its effective number is finalised on
+   its announcing fork (first due root, no later change of the fork overtaken): set id + 1, its
+   authorities under the new id, the old set ends at the finalised block, its children become the
+   roots, forced changes that do not descend from the finalised block are dropped. *)
+Theorem C23_scheduled_takes_effect : forall t s h pre n post,
+  g_roots s = pre ++ n :: post ->
+  (forall x, In x pre -> due t (g_fin s) h x = false) ->
+  due t (g_fin s) h n = true -> existsb (overtaken t (g_fin s) h) (n_children n) = false ->
+  apply_scheduled fixed t s h =
+  (mkgst (filter (fun c => rel t (g_fin s) h (pc_blk c)) (g_forced s)) (n_children n) (g_setid s + 1)
+         (aput (g_auths s) (g_setid s + 1) (pc_auth (n_change n)))
+         (aput (g_changes s) (g_setid s + 1) (number t h)) (g_fin s), true).
+Proof. exact apply_scheduled_enacts. Qed.
+Print Assumptions C23_scheduled_takes_effect.
+
+(* When no pending scheduled change is due, the set is unchanged and exactly the changes on
+   abandoned forks are discarded: a root stays iff it descends from the finalised block or is an
+   ancestor of it (its delay has not elapsed yet). *)
+Theorem C23_abandoned_fork_changes_discarded : forall t s h,
+  (forall x, In x (g_roots s) -> due t (g_fin s) h x = false) ->
+  apply_scheduled fixed t s h =
+  (mkgst (filter (fun c => rel t (g_fin s) h (pc_blk c)) (g_forced s))
+         (filter (fun x => rel t (g_fin s) h (pc_blk (n_change x)) || rel t (g_fin s) (pc_blk (n_change x)) h) (g_roots s))
+         (g_setid s) (g_auths s) (g_changes s) (g_fin s), true).
+Proof. exact apply_scheduled_keeps. Qed.
+Print Assumptions C23_abandoned_fork_changes_discarded.
 
 (* --- refinement, exhaustive small scope.  For EVERY well-formed block tree with at most 3
    blocks besides genesis, every assignment of at most 2 change announcements (scheduled or
